@@ -826,6 +826,17 @@ Extra:\n{self.extra_map}
                         f"Previous input(s) set a max cosigners of {expected_quorum_n}, but this transaction is {output_quorum_n}"
                     )
 
+                # Be sure the script is nothing but <m> <the named pubkeys> <n> OP_CHECKMULTISIG
+                script_keys = script_for_psbtout.commands[1:-2]
+                if (
+                    len(script_keys) != output_quorum_n
+                    or script_for_psbtout.commands[-2] != 80 + output_quorum_n
+                    or set(script_keys) != set(psbt_out.named_pubs.keys())
+                ):
+                    raise SuspiciousTransaction(
+                        f"Output #{cnt} script is not a plain {output_quorum_m}-of-{output_quorum_n} multisig of its named_pubs"
+                    )
+
                 # Be sure all xpubs are properly acocunted for
                 if output_quorum_n != len(psbt_out.named_pubs):
                     # TODO: doesn't handle case where the same xfp is >1 signers (surprisngly complex)
